@@ -325,7 +325,7 @@ def bfs(start_project, depth, judge, level='full', kinds=None,
         for node in frontier:
             deleted = []
             for _l, mj in node.path:
-                if mj[0] == 'DeleteField':
+                if mj[0] in ('DeleteField', 'RenameField'):
                     deleted.append(mj[2])
             steps = AL.enabled(node.spec, level=level, kinds=kinds,
                                reuse_names=tuple(deleted), **opts)
